@@ -724,11 +724,9 @@ def gen(tier, rng):
         opts = [None] + ['k%d' % j for j in range(n)] + ['zz']
         allg = list(itertools.product(opts, repeat=n))
         for gi, xs in enumerate(allg):
-            reps = 1 if (quick and n == 3) else 2
+            reps = 2 if quick else 8
             for r in range(reps):
                 fs = [[rng.random() < 0.35 for _ in E2E_FIELDS] for _ in range(n)]
-                if quick and n == 3 and gi % 2:
-                    continue
                 db = e2e_db(n, [x.upper() if (x and rng.random() < 0.3) else x for x in xs], fs)
                 keys = [k for k, _ in db]
                 cits = ['*'] if rng.random() < 0.3 else [k.upper() if rng.random() < 0.3 else k for k in rng.sample(keys, len(keys))]
@@ -778,7 +776,80 @@ def describe(fn, a):
             d['fields'] = [S(f) for f in a[3]]
     return d
 
+def _to_coq(v):
+    if isinstance(v, int):
+        return '(A (%d))' % v
+    return '(L [%s])' % '; '.join(_to_coq(x) for x in v)
+
+def _from_tokens(toks):
+    """inverse of the Gallina flattening  A z -> 0 z ;  L l -> 1 items 2"""
+    pos = [0]
+    def item():
+        t = toks[pos[0]]; pos[0] += 1
+        if t == 0:
+            z = toks[pos[0]]; pos[0] += 1
+            return z
+        assert t == 1
+        out = []
+        while toks[pos[0]] != 2:
+            out.append(item())
+        pos[0] += 1
+        return out
+    return item()
+
+_FLAT = """
+Fixpoint flat (s : sexp) : list Z :=
+  match s with
+  | A z => [0%Z; z]
+  | L l => 1%Z :: (fix go (l : list sexp) : list Z := match l with [] => [2%Z] | x :: r => flat x ++ go r end) l
+  end.
+Open Scope Z_scope.
+"""
+
+def vm_crosscheck(ck, tier, rng):
+    """extraction cross-check: the same cases through the extracted OCaml runner and through
+    Eval vm_compute of the same dispatch function inside Coq"""
+    import os, re
+    k = 40 if tier == 'quick' else 400
+    r = random.Random(rng.random())
+    cases = []
+    for i in range(k):
+        db = rand_db(r, r.choice([1, 2, 3, 4, 6]), alias=r.random() < 0.2, dupkeys=r.random() < 0.1)
+        keys = [x for x, _ in db]
+        fn = r.choice([1, 2, 3, 4, 5, 6, 7, 8, 9])
+        if fn in (1, 2, 3):
+            a = [db, r.choice(db)[1], r.choice(QNAMES)] + ([1] if fn != 2 else [])
+        elif fn == 9:
+            a = [db, r.sample(QNAMES, 3), 1]
+        else:
+            a = [db, r.choice([['*'], r.sample(keys, r.randint(1, len(keys))), ['ghost'] + keys[:1]]), r.choice([0, 1, 2])] + ([ALLF] if fn != 4 else [])
+        cases.append((fn, norm(model_arg(fn, norm(a)))))
+    runner = ck.model.run(cases, ck.rundir, shards=1)
+    src = open(os.path.join(COQ, 'Extr', 'C14.v')).read()
+    body = src[:src.index('Extraction "model.ml"')]
+    body = '\n'.join(l for l in body.split('\n') if not l.startswith('Require'))
+    v = body + _FLAT
+    for i, (fn, a) in enumerate(cases):
+        v += 'Eval vm_compute in (%d, flat (dispatch %d %s)).\n' % (i, fn, _to_coq(a))
+    path = os.path.join(ck.rundir, 'c14_vm_crosscheck.v')
+    open(path, 'w').write(v)
+    rc, out = coqc_file(path, ck.rundir)
+    fails = []
+    if rc != 0:
+        fails.append(('coqc', out[-600:], False))
+    else:
+        blocks = re.findall(r'=\s*\((\d+),\s*\[(.*?)\]\)\s*:', out, flags=re.S)
+        got = {}
+        for idx, toks in blocks:
+            got[int(idx)] = _from_tokens([int(t) for t in re.findall(r'-?\d+', toks)])
+        for i, (fn, a) in enumerate(cases):
+            if got.get(i) != runner[i]:
+                fails.append(('case %d fn %d %s' % (i, fn, sx(a)[:200]), 'runner %r vs vm_compute %r' % (runner[i], got.get(i)), False))
+    return {'name': 'extraction_vs_vm_compute', 'evaluations': len(cases), 'failures': fails[:3],
+            'info': 'the extracted OCaml runner and vm_compute inside Coq agree on dispatch for %d random cases' % len(cases)}
+
 def extra_checks(ck, tier, rng):
+    yield vm_crosscheck(ck, tier, rng)
     # the oracle joins person names as given: every name the generators use must be its own str()
     from pybtex.database import Person
     names = ['E%d' % i for i in range(0, 200)] + ['Knuth, D%d' % i for i in range(0, 200)]
@@ -800,6 +871,6 @@ EXHAUSTIVE = {'quick': 'all graphs over <= 3 entries x {title, editor} assignmen
 TRUSTED_BASE = ['modelled (not verified) code: pybtex/database/__init__.py Entry._find_field/_find_person_field/_find_crossref_field, BibliographyData.add_extra_citations/_expand_wildcard_citations/_get_crossreferenced_citations; pybtex/bibtex/interpreter.py Field.value/Crossref.value/command_read/remove_missing_citations/_iterate; pybtex/style/template.py field(); pybtex/style/formatting/__init__.py format_bibliography/format_entries/format_entry',
                 'str(Person) is an input of the model (a person is represented by its str()); the .bib parsers, the BST built-ins missing$/if$/write$/newline$ and the template combinators first_of/optional/join are exercised by the implementation runs but not modelled']
 ASSUMPTIONS = ['keys and field names are ASCII (str.lower modelled on ASCII)',
-               'cross-reference chains stay below CPython\'s recursion limit (about 330 hops at the default limit of 1000); the model has no recursion limit',
+               'cross-reference chains stay below CPython\'s recursion limit (498 hops from the top level at the default limit of 1000; deeper chains raise RecursionError); the model has no recursion limit',
                'object identity: two Entry objects with the same identity have the same content (trivially true in Python; a hypothesis ids_wf of the chain theorems)']
 PARTIAL = []
